@@ -118,6 +118,11 @@ TARGETS += [
          ret="script", tiefile="locking_scripts", fallback="fun h => Ok (Address.spk_segwit Address.P2WSH h)"),
     dict(coq="src_p2tr_spk", file="bitcoinutils/keys.py", qual="P2trAddress.to_script_pub_key", params=[], selfattrs=[("witness_program", "hexbytes")],
          ret="script", tiefile="locking_scripts", fallback="fun h => Ok (Address.spk_segwit Address.P2TR h)"),
+    dict(coq="src_legacy_digest", file="bitcoinutils/transactions.py", qual="Transaction.get_transaction_digest", sha=True,
+         params=[("txin_index", "int"), ("script", "script"), ("sighash", "int")],
+         selfattrs=[("version", "bytes"), ("inputs", "list:txin"), ("outputs", "list:txout"), ("witnesses", "list:witness"), ("locktime", "bytes")],
+         ret="bytes", tiefile="legacy_digest",
+         fallback="fun sha256 i sc ht v ins outs w l => if i <? 0 then Raise else of_option (Sighash.legacy_digest sha256 (Tx.Build_tx v ins outs l false w) (Z.to_nat i) sc ht)"),
     dict(coq="src_taproot_digest", file="bitcoinutils/transactions.py", qual="Transaction.get_transaction_taproot_digest", sha=True,
          params=[("txin_index", "int"), ("script_pubkeys", "list:script"), ("amounts", "list:int"), ("ext_flag", "int"), ("script", "script"),
                  ("leaf_ver", "int"), ("sighash", "int")],
@@ -147,6 +152,7 @@ TRANSLATED = set()
 BASES = {"P2pkhAddress": ["Address"], "P2shAddress": ["Address"], "P2wpkhAddress": ["SegwitAddress"], "P2wshAddress": ["SegwitAddress"],
          "P2trAddress": ["SegwitAddress"]}
 # element objects of the lists a method iterates over: attribute -> (type, model projection), method -> translated function
+SETTERS = {("txin", "script_sig"): ("Sighash.set_script", "script"), ("txin", "sequence"): ("Sighash.set_seq", "bytes")}
 OBJ = {
     "txin": {"attrs": [("txid", "hexbytes", "Tx.ti_txid"), ("txout_index", "int", "Tx.ti_vout"), ("script_sig", "script", "Tx.ti_script"),
                        ("sequence", "bytes", "Tx.ti_seq")], "methods": {"to_bytes": ("src_txin_to_bytes", "bytes")}, "coq": "Tx.txin"},
@@ -242,6 +248,17 @@ class Tr:
                 if a == e.attr:
                     return [], ("(%s %s)" % (proj, ident)) if proj else ident, ("bytes" if aty == "hexbytes" else aty)
             raise Unsupported("attribute %s of %s" % (e.attr, ty))
+        if isinstance(e, ast.List) and len(e.elts) <= 1 and getattr(self, "want_list", None):
+            # [] or [x] assigned to a list-valued field of the copy
+            if not e.elts:
+                return [], "[]", self.want_list
+            p, a, ta = self.expr(e.elts[0])
+            if "list:" + ta != self.want_list: raise Unsupported("list element type")
+            return p, "[%s]" % a, self.want_list
+        if isinstance(e, ast.Call) and isinstance(e.func, ast.Name) and e.func.id == "TxOutput" and len(e.args) == 2 and not e.keywords:
+            p1, a, ta = self.expr(e.args[0]); p2, b, tb = self.expr(e.args[1])
+            if ta != "int" or tb != "script": raise Unsupported("TxOutput arguments")
+            return p1 + p2, "(Tx.Build_txout %s %s)" % (a, b), "txout"
         if isinstance(e, ast.Tuple):
             if len(e.elts) != 2:
                 raise Unsupported("tuple arity")
@@ -424,8 +441,8 @@ class Tr:
         f = e.func
         # self.m(args): a method of the same object translated earlier on this run
         cls_ = self.t["qual"].split(".")[0]
-        if (isinstance(f, ast.Attribute) and isinstance(f.value, ast.Name) and f.value.id == "self" and f.attr in self.methods and not e.keywords
-                and self.methods[f.attr][5] in [cls_] + BASES.get(cls_, [])):
+        if (isinstance(f, ast.Attribute) and isinstance(f.value, ast.Name) and (f.value.id == "self" or f.value.id in getattr(self, "aliases", ()))
+                and f.attr in self.methods and not e.keywords and self.methods[f.attr][5] in [cls_] + BASES.get(cls_, [])):
             name = f.attr
             coq, attrs, rty, sha = self.methods[name][:4]
             ptys = self.methods[name][4] if len(self.methods[name]) > 4 else []
@@ -654,6 +671,14 @@ class Tr:
         if not ss:
             return self.tails[-1]() if self.tails else self.end_of_body()
         s, rest = ss[0], ss[1:]
+        mut = self.mutation(s)
+        if mut is not None:
+            key, pre, newval = mut
+            saved = dict(self.env)
+            ident = self.bind(key, newval, saved[key][1])
+            body = self.stmts(rest)
+            self.env = saved
+            return self.wrap(pre, "let %s := %s in\n%s" % (ident, newval, body))
         if isinstance(s, ast.Expr) and isinstance(s.value, ast.Constant) and isinstance(s.value.value, str):
             return self.stmts(rest)                     # docstring
         if isinstance(s, ast.Pass):
@@ -817,6 +842,93 @@ def _for_loop(self, s, rest):
 
 
 Tr.for_loop = _for_loop
+
+
+def _alias_field(self, node):
+    """node is <alias>.<attr> for a copy of self made earlier: the key of that field"""
+    if (isinstance(node, ast.Attribute) and isinstance(node.value, ast.Name) and node.value.id in getattr(self, "aliases", ())
+            and "self." + node.attr in self.env and self.env["self." + node.attr][1].startswith("list:")):
+        return "self." + node.attr
+    return None
+
+
+def _setter(self, key, attr, value_expr, elem_ident=None):
+    ety = self.env[key][1][len("list:"):]
+    if (ety, attr) not in SETTERS: raise Unsupported("assignment to %s.%s" % (ety, attr))
+    fn, vty = SETTERS[(ety, attr)]
+    p, a, ta = self.expr(value_expr)
+    if p: raise Unsupported("partial operation in an element update")
+    if ta != vty: raise Unsupported("element update of type %s" % ta)
+    return "(%s %s)" % (fn, a)
+
+
+def _mutation(self, s):
+    """the imperative updates of a copied object that are understood, each as a functional update of one list field:
+    returns (field key, prebindings, new value text) or None"""
+    # A.  for x in T.field: x.attr = E
+    if (isinstance(s, ast.For) and not s.orelse and isinstance(s.target, ast.Name) and len(s.body) == 1 and isinstance(s.body[0], ast.Assign)
+            and len(s.body[0].targets) == 1 and isinstance(s.body[0].targets[0], ast.Attribute)
+            and isinstance(s.body[0].targets[0].value, ast.Name) and s.body[0].targets[0].value.id == s.target.id):
+        key = self.alias_field(s.iter)
+        if key:
+            if any(isinstance(n, ast.Name) and n.id == s.target.id for n in ast.walk(s.body[0].value)): raise Unsupported("element update depending on the element")
+            return key, [], "(map %s %s)" % (self.setter(key, s.body[0].targets[0].attr, s.body[0].value), self.env[key][0])
+    # C.  for i in range(len(T.field)): if i != K: T.field[i].attr = E
+    if (isinstance(s, ast.For) and not s.orelse and isinstance(s.target, ast.Name) and isinstance(s.iter, ast.Call) and isinstance(s.iter.func, ast.Name)
+            and s.iter.func.id == "range" and len(s.iter.args) == 1 and isinstance(s.iter.args[0], ast.Call)
+            and isinstance(s.iter.args[0].func, ast.Name) and s.iter.args[0].func.id == "len" and len(s.iter.args[0].args) == 1
+            and len(s.body) == 1 and isinstance(s.body[0], ast.If) and not s.body[0].orelse and len(s.body[0].body) == 1):
+        key = self.alias_field(s.iter.args[0].args[0]); iff = s.body[0]; asg = iff.body[0]
+        if (key and isinstance(iff.test, ast.Compare) and len(iff.test.ops) == 1 and isinstance(iff.test.ops[0], ast.NotEq)
+                and isinstance(iff.test.left, ast.Name) and iff.test.left.id == s.target.id and isinstance(asg, ast.Assign)
+                and len(asg.targets) == 1 and isinstance(asg.targets[0], ast.Attribute) and isinstance(asg.targets[0].value, ast.Subscript)
+                and self.alias_field(asg.targets[0].value.value) == key and isinstance(asg.targets[0].value.slice, ast.Name)
+                and asg.targets[0].value.slice.id == s.target.id):
+            p, k, tk = self.expr(iff.test.comparators[0])
+            if tk != "int" or p: raise Unsupported("index compared in a loop")
+            return key, [], "(py_update_others %s %s %s)" % (self.env[key][0], k, self.setter(key, asg.targets[0].attr, asg.value))
+    # D.  for i in range(K): T.field.append(E)
+    if (isinstance(s, ast.For) and not s.orelse and isinstance(s.iter, ast.Call) and isinstance(s.iter.func, ast.Name) and s.iter.func.id == "range"
+            and len(s.iter.args) == 1 and len(s.body) == 1 and isinstance(s.body[0], ast.Expr) and isinstance(s.body[0].value, ast.Call)
+            and isinstance(s.body[0].value.func, ast.Attribute) and s.body[0].value.func.attr == "append" and len(s.body[0].value.args) == 1):
+        key = self.alias_field(s.body[0].value.func.value)
+        if key:
+            p, k, tk = self.expr(s.iter.args[0]); q, a, ta = self.expr(s.body[0].value.args[0])
+            if tk != "int" or p or q or "list:" + ta != self.env[key][1]: raise Unsupported("append loop")
+            return key, [], "(%s ++ repeat %s (Z.to_nat %s))" % (self.env[key][0], a, k)
+    # B.  T.field[I].attr = E
+    if (isinstance(s, ast.Assign) and len(s.targets) == 1 and isinstance(s.targets[0], ast.Attribute) and isinstance(s.targets[0].value, ast.Subscript)):
+        key = self.alias_field(s.targets[0].value.value)
+        if key:
+            p, i_, ti = self.expr(s.targets[0].value.slice)
+            if ti != "int" or p: raise Unsupported("index of an element update")
+            t = self.fresh()
+            return key, [("opt", t, "py_update_nth %s %s %s" % (self.env[key][0], i_, self.setter(key, s.targets[0].attr, s.value)))], t
+    # E.  T.field.append(x)
+    if (isinstance(s, ast.Expr) and isinstance(s.value, ast.Call) and isinstance(s.value.func, ast.Attribute) and s.value.func.attr == "append"
+            and len(s.value.args) == 1):
+        key = self.alias_field(s.value.func.value)
+        if key:
+            p, a, ta = self.expr(s.value.args[0])
+            if "list:" + ta != self.env[key][1]: raise Unsupported("append of %s" % ta)
+            return key, p, "(%s ++ [%s])" % (self.env[key][0], a)
+    # F.  T.field = <list expression>
+    if isinstance(s, ast.Assign) and len(s.targets) == 1:
+        key = self.alias_field(s.targets[0])
+        if key:
+            self.want_list = self.env[key][1]
+            try:
+                p, a, ta = self.expr(s.value)
+            finally:
+                self.want_list = None
+            if ta != self.env[key][1]: raise Unsupported("assignment of %s to a %s field" % (ta, self.env[key][1]))
+            return key, p, a
+    return None
+
+
+Tr.alias_field = _alias_field
+Tr.setter = _setter
+Tr.mutation = _mutation
 
 
 def copy_load(t):
